@@ -15,7 +15,7 @@ CFG = dict(
                "modelled with EVERY Go slice expression and fixed-width read a partial operation that can panic — return a value or an error for EVERY byte string, never a panic "
                "(C08_ssz_*_never_panics, by induction over the dynamic-list loop for any claimed length and any offsets; UnmarshalDynamic alone DOES panic on a short source and is "
                "safe only behind DecodeDynamicLength: both halves proved); an accepted message obeys the size limits (<= 13 signers / justifications / partial signatures, 56-byte ids, "
-               "item <= 65536, full data <= 5243144, data <= 6291829); round trips decode(encode m) = m for every well-formed SSVMessage and SignedPartialSignatureMessage; tied by the "
+               "item <= 65536, full data <= 5243144, data <= 6291829); round trips decode(encode m) = m for every well-formed SSVMessage, qbft.Message (three offsets, identifier, both dynamic justification lists) and SignedPartialSignatureMessage; tied by the "
                "regenerated literal/operator lists of the generated decoders and helpers (C08_tie_ssz_*) and engine `ssz` (real commons.DecodeNetworkMsg / queue.DecodeSSVMessage / "
                "spec Decode vs model on valid encodings and targeted malformations, panic oracle). PARTIAL: the remaining byte-level decoders (JSON, base64, RLP, "
                "libp2p envelopes), hanging and unbounded allocation are not modelled; they are exercised by a malformed-byte stream (fuzzing) through "
@@ -55,7 +55,7 @@ CFG = dict(
          "mutated (truncation at field boundaries, every offset word set to 0 / fixed-1 / fixed / size-1 / size / size+1 / +-1 / +4 / 2^31 / 2^32-1, inner offset-table words, "
          "offset words copied onto each other, bit flips, appends, splices, cuts, random and constant strings of critical lengths, 20 % doubly mutated), sizes exactly at and one beyond "
          "every limit (6291829 / 5243144 / 65536 bytes, 13 / 14 entries), decoded by the REAL commons.DecodeNetworkMsg / queue.DecodeSSVMessage / spec Decode and by the model; "
-         "observation = err | every decoded field; encoder ops tie encodeSSV / encodeSPSig to the real Encode; oracle: no decoder call panics (C08/ssz-decoder-panic:<target>)",
+         "observation = err | every decoded field; encoder ops tie encodeSSV / encodeQMsg / encodeSPSig to the real Encode / MarshalSSZ; oracle: no decoder call panics (C08/ssz-decoder-panic:<target>)",
     trusted_base=["model of Go slice expressions / binary.LittleEndian reads in Ssv/Model/Ssz.lean (bounds checked against len; Go checks cap >= len) and the hand transcription of the generated decoders (pinned by literal lists + differential run)",
                   "model of go1.23 time.Time (Unix/Add/Sub/Before/After with int64 wrap and saturation) and beacon.Network slot arithmetic (uint64 wrap)",
                   "instance.IsProposalJustification, SSZ/JSON decoding, BLS key deserialisation, RSA verification are abstract inputs computed by the harness from the real functions"],
